@@ -166,6 +166,34 @@ def run(tier: str, replay=None) -> int:
                             if n_ not in pp:
                                 pp.append(n_)
         evals += len(hist)
+    # every spelling that names the same instruction (dep_X, IMPORTED_X, X_undocumented, undocumented_X) reports X's
+    # attributes - NONE for the instructions of noped_insns.json, the attributes of the text for the others
+    c0 = compilers[0]
+    noped_l = [n_ for n_ in list(c0.noped_insns) if n_ in beh]
+    sp_names = noped_l + rng.sample(corpus_ok, min(3, len(corpus_ok)))
+    sp_parsed = rc.parse_cached({n_: beh[n_] for n_ in sp_names})
+    for nm in sp_names:
+        if sp_parsed[nm].exception is not None:
+            continue
+        for sp_ in (nm, "dep_" + nm, "IMPORTED_" + nm, nm + "_undocumented", "undocumented_" + nm):
+            prior = list(c0.transformer.ext.preds_written)
+            try:
+                with rc.quiet():
+                    ri = c0.transform_insn(sp_, sp_parsed[nm])
+            except Exception:
+                continue
+            evals += 1
+            pp = list(prior)
+            for tree, m in zip(sp_parsed[nm].asts, ri.meta):
+                if nm in noped_l:
+                    if list(m) != ["HEX_IL_INSN_ATTR_NONE"]:
+                        res.violation({"what": f"no-op listed instruction {nm}, asked for as {sp_!r}, reports {list(m)} instead of ['HEX_IL_INSN_ATTR_NONE']",
+                                       "reproduce": f"Compiler.transform_insn({sp_!r}, <parse result of {nm}>).meta"})
+                    continue
+                record(tree, m, pp, {"history": 0, "call": "insn", "insn": sp_})
+                for s_ in m:
+                    if s_.startswith("HEX_IL_INSN_ATTR_WRITE_P") and int(s_[-1]) not in pp:
+                        pp.append(int(s_[-1]))
     # unimplemented instructions report INVALID
     ui = RZILInstruction.get_unimplemented_rzil_instr("X_dummy")
     if ui.meta != [["HEX_IL_INSN_ATTR_INVALID"]]:
